@@ -112,6 +112,11 @@ def gen_case(rng, kinds, n_items=None):
                 return '<img src="%s" srcset="%s 2x">' % (u, u)
             pa.append(img(ua))
             pb.append(img(ub))
+        if rng.random() < 0.15:        # the link / image is the fallback content of an embedded object, or sits in other inline containers
+            wrap = rng.choice(['<video src="v.webm">%s</video>', '<audio controls>no audio: %s</audio>', '<object data="o.swf">%s</object>',
+                               '<span class="c">%s</span>', '<label>%s</label>', '<b><i>%s</i></b>'])
+            pa[-1] = wrap % pa[-1]
+            pb[-1] = wrap % pb[-1]
 
     def page(parts):
         if layout == 'inline':
